@@ -97,7 +97,7 @@ static void report(Rng& r, Problem& P, const IntervalVector& root, const CovSolv
   }
   if (with_log) {
     string ev; if (log.empty()) ev = "-"; for (size_t i = 0; i < log.size(); i++) { if (i) ev += ","; ev += log[i]; }
-    EMIT("solvelog %s %s %s %s %s => %s\n", P.dags.c_str(), P.specs.c_str(), tok(root).c_str(), ev.c_str(), pv.c_str(), status_name(st));
+    EMIT("solvelog %s %s %s %s %s %s => %s\n", P.dags.c_str(), P.specs.c_str(), tok(root).c_str(), ev.c_str(), pv.c_str(), vtok(eps_min).c_str(), status_name(st));
   }
   // planted and sampled points
   vector<Vector> pts = P.planted;
@@ -166,7 +166,7 @@ static void wl_resume(Rng& r, long count, bool full, const string& file) {
         Run* cur = (k == -2) ? new Run(P, c, 0, -1, 1e-4 * r.range(1, 20)) : new Run(P, c, 0, k, 60);
         if (r.coin(10) && cur->log.size() < 3000) {
           string pv = paving_token(cur->s->get_data(), P.n, P.m);
-          EMIT("solvelog %s %s %s %s %s => %s\n", P.dags.c_str(), P.specs.c_str(), tok(root).c_str(), cur->events().c_str(), pv.c_str(), status_name(cur->st));
+          EMIT("solvelog %s %s %s %s %s %s => %s\n", P.dags.c_str(), P.specs.c_str(), tok(root).c_str(), cur->events().c_str(), pv.c_str(), vtok(c.eps_min).c_str(), status_name(cur->st));
         }
         for (int l = 0; l < links; l++) {
           string saved = items_token(cur->s->get_data(), P.n, P.m);
@@ -178,8 +178,8 @@ static void wl_resume(Rng& r, long count, bool full, const string& file) {
           long k2 = (l + 1 < links) ? r.range(1, (int)std::max(2L, N / 2)) : -1;
           cur = new Run(P, c, &data, k2, 60);
           if (cur->log.size() < 8000)
-            EMIT("resumelog %s %s %s %s %s => %s\n", P.dags.c_str(), P.specs.c_str(), loaded.c_str(), cur->events().c_str(),
-                 items_token(cur->s->get_data(), P.n, P.m).c_str(), status_name(cur->st));
+            EMIT("resumelog %s %s %s %s %s %s => %s\n", P.dags.c_str(), P.specs.c_str(), loaded.c_str(), cur->events().c_str(),
+                 items_token(cur->s->get_data(), P.n, P.m).c_str(), vtok(c.eps_min).c_str(), status_name(cur->st));
         }
         // the final data must satisfy the guarantees of an uninterrupted run
         vector<string> nolog;
